@@ -3625,8 +3625,143 @@ def induction_variables(tree):
     return n
 
 
+def inline_post_call_decorators(tree):
+    """def _dec(method):                                   @_dec
+           @wraps(method)                                  def m(self, ..): BODY          ==>     def m(self, ..): BODY; POST
+           def wrapper(self, *args, **kwargs):
+               result = method(self, *args, **kwargs)
+               POST                       # statements over `self` only
+               return result
+           return wrapper
+    for a private module-level decorator of exactly that shape and a decorated function whose returns carry no value (so `result`
+    is None and POST runs after every normal completion and after no exceptional one): POST is appended to the body and put in
+    front of every `return`."""
+    n = 0
+    decs = {}
+    for fn in [f for f in tree.body if isinstance(f, ast.FunctionDef) and f.name.startswith("_") and not f.decorator_list and len(f.args.args) == 1]:
+        body = [b for b in fn.body if not (isinstance(b, ast.Expr) and isinstance(b.value, ast.Constant))]
+        if len(body) != 2 or not isinstance(body[0], ast.FunctionDef) or not (isinstance(body[1], ast.Return) and isinstance(body[1].value, ast.Name) and body[1].value.id == body[0].name):
+            continue
+        w = body[0]
+        if any(ast.unparse(d).split("(")[0] not in ("wraps", "functools.wraps") for d in w.decorator_list):
+            continue
+        a = w.args
+        if len(a.args) != 1 or a.vararg is None or a.kwarg is None or a.kwonlyargs or a.defaults:
+            continue
+        wb = [b for b in w.body if not (isinstance(b, ast.Expr) and isinstance(b.value, ast.Constant))]
+        if len(wb) < 3:
+            continue
+        first, last = wb[0], wb[-1]
+        call = f"{fn.args.args[0].arg}({a.args[0].arg}, *{a.vararg.arg}, **{a.kwarg.arg})"
+        if not (isinstance(first, ast.Assign) and len(first.targets) == 1 and isinstance(first.targets[0], ast.Name) and ast.unparse(first.value) == call):
+            continue
+        res = first.targets[0].id
+        if not (isinstance(last, ast.Return) and isinstance(last.value, ast.Name) and last.value.id == res):
+            continue
+        post = wb[1:-1]
+        banned = {res, a.vararg.arg, a.kwarg.arg, fn.args.args[0].arg}
+        if any(isinstance(y, ast.Name) and y.id in banned for b in post for y in ast.walk(b)) or any(isinstance(y, (ast.Return, ast.Yield, ast.YieldFrom)) for b in post for y in ast.walk(b)):
+            continue
+        decs[fn.name] = (a.args[0].arg, post)
+    if not decs:
+        return 0
+    for f in [x for x in ast.walk(tree) if isinstance(x, ast.FunctionDef)]:
+        for d in list(f.decorator_list):
+            if not (isinstance(d, ast.Name) and d.id in decs) or not f.args.args:
+                continue
+            if d is not f.decorator_list[-1]:
+                continue   # only as the innermost decorator: POST then runs inside whatever the outer ones (the guards) set up
+            if any(isinstance(y, ast.Return) and y.value is not None and not (isinstance(y.value, ast.Constant) and y.value.value is None) for y in _walk_no_nested_fn(f)) \
+                    or any(isinstance(y, (ast.Yield, ast.YieldFrom)) for y in _walk_no_nested_fn(f)):
+                continue
+            wself, post = decs[d.id]
+            me = f.args.args[0].arg
+
+            class Ren(ast.NodeTransformer):
+                def visit_Name(self, node):
+                    return ast.copy_location(ast.Name(id=me, ctx=node.ctx), node) if node.id == wself else node
+
+            def mk():
+                return [Ren().visit(copy.deepcopy(b)) for b in post]
+
+            class Ins(ast.NodeTransformer):
+                def visit_FunctionDef(self, node):
+                    return node if node is not f else self.generic_visit(node)
+
+                def visit_Lambda(self, node):
+                    return node
+
+                def visit_Return(self, node):
+                    return mk() + [node]
+            Ins().visit(f)
+            if not (f.body and isinstance(f.body[-1], (ast.Return, ast.Raise))):
+                f.body = f.body + mk()
+            f.decorator_list.remove(d)
+            n += 1
+    if n:
+        ast.fix_missing_locations(tree)
+    return n
+
+
+def _walk_no_nested_fn(fn):
+    todo = list(fn.body)
+    while todo:
+        x = todo.pop()
+        yield x
+        for c in ast.iter_child_nodes(x):
+            if not isinstance(c, (ast.FunctionDef, ast.AsyncFunctionDef, ast.Lambda, ast.ClassDef)):
+                todo.append(c)
+
+
+def materialised_tuple_tables(tree):
+    """T = np.array([(E1(x), E2(x)) for x in XS], dtype=D)   |   T = [(E1(x), E2(x)) for x in XS]
+       .. len(T) ..                                            ==>   .. len(XS) ..
+       for a, b in T: BODY                                     ==>   for x in XS: a = E1(x); b = E2(x); BODY
+    when T is a local bound once and used in no other way, XS is a plain name / self attribute that nothing in between rebinds, and
+    E1, E2 are pure: the table row k is (E1, E2) of the k-th element (the dtype only fixes the on-disk width of what is written)."""
+    n = 0
+    for fn in [f for f in ast.walk(tree) if isinstance(f, ast.FunctionDef)]:
+        for st in list(fn.body):
+            if not (isinstance(st, ast.Assign) and len(st.targets) == 1 and isinstance(st.targets[0], ast.Name)):
+                continue
+            t = st.targets[0].id
+            v = st.value
+            comp = v.args[0] if isinstance(v, ast.Call) and ast.unparse(v.func) in ("np.array", "np.asarray", "numpy.array") and v.args and all(k.arg == "dtype" for k in v.keywords) and len(v.args) == 1 else v
+            if not (isinstance(comp, ast.ListComp) and isinstance(comp.elt, ast.Tuple) and len(comp.generators) == 1 and not comp.generators[0].ifs and isinstance(comp.generators[0].target, ast.Name)):
+                continue
+            g = comp.generators[0]
+            xs = g.iter
+            if not all(isinstance(y, (ast.Name, ast.Attribute, ast.Load)) for y in ast.walk(xs)):
+                continue
+            if not all(all(isinstance(y, (ast.Name, ast.Attribute, ast.Load, ast.BinOp, ast.Sub, ast.Add, ast.Constant)) for y in ast.walk(e)) for e in comp.elt.elts):
+                continue
+            stores = [x for x in ast.walk(fn) if isinstance(x, ast.Name) and x.id == t and isinstance(x.ctx, ast.Store)]
+            loads = [x for x in ast.walk(fn) if isinstance(x, ast.Name) and x.id == t and isinstance(x.ctx, ast.Load)]
+            lens = [c for c in ast.walk(fn) if isinstance(c, ast.Call) and ast.unparse(c.func) == "len" and len(c.args) == 1 and isinstance(c.args[0], ast.Name) and c.args[0].id == t]
+            loops = [l for l in ast.walk(fn) if isinstance(l, ast.For) and isinstance(l.iter, ast.Name) and l.iter.id == t and isinstance(l.target, ast.Tuple)
+                     and len(l.target.elts) == len(comp.elt.elts) and all(isinstance(e, ast.Name) for e in l.target.elts) and not l.orelse]
+            xs_names = {y.id for y in ast.walk(xs) if isinstance(y, ast.Name)}
+            rebinds = [x for x in ast.walk(fn) if isinstance(x, ast.Name) and x.id in xs_names and isinstance(x.ctx, ast.Store)]
+            if len(stores) != 1 or len(loads) != len(lens) + len(loops) or not loops or (rebinds and xs_names != {"self"} and any(r.lineno > st.lineno for r in rebinds)):
+                continue
+            for c in lens:
+                c.args = [copy.deepcopy(xs)]
+            for l in loops:
+                pre = [ast.Assign(targets=[ast.Name(id=e.id, ctx=ast.Store())], value=copy.deepcopy(val)) for e, val in zip(l.target.elts, comp.elt.elts)]
+                l.target = ast.Name(id=g.target.id, ctx=ast.Store())
+                l.iter = copy.deepcopy(xs)
+                l.body = pre + l.body
+            fn.body.remove(st)
+            n += 1
+    if n:
+        ast.fix_missing_locations(tree)
+    return n
+
+
 def desugar_module(tree: ast.Module):
     expand_decorator_aliases(tree)
+    inline_post_call_decorators(tree)
+    materialised_tuple_tables(tree)
     dataclass_init(tree)
     seek_names(tree)
     operator_names(tree)
